@@ -539,14 +539,15 @@ theorem from_report_iff (rf : ResultFilter) (R : List SuiteRes) (S : List Suite)
   simp only [List.any_eq_true, Bool.and_eq_true, beq_iff_eq]
 
 /-- What a result must fulfil: the tree criteria evaluated on the *report's* hierarchy, a status in the
-    requested set (if any), the enabled/disabled switches read on the status, and the grep literal. -/
+    requested set (if any), the enabled/disabled switches read on the status, and the `--grep` pattern found
+    in SOME SINGLE grepable item (`Props/C12Grep.lean` says what "found" means). -/
 theorem result_filter_iff (rf : ResultFilter) (ctx : Hier) (r : TestRes) :
     rf.sel ctx r = true ↔
       rf.toBase.sel (ctx ++ [r.node]) = true ∧
       (rf.statuses = [] ∨ ∃ s ∈ rf.statuses, r.status = some s) ∧
       (rf.enabled = true → r.status ≠ some .disabled) ∧
       (rf.disabled = true → r.status = some .disabled) ∧
-      (∀ lit, rf.grep = some lit → ∃ txt ∈ grepables r.steps, containsCI lit txt = true) := by
+      (∀ re, rf.grep = some re → ∃ txt ∈ grepables r.steps, Regex.search re txt = true) := by
   simp only [ResultFilter.sel, ResultFilter.resultCriteria, ResultFilter.doStatuses, ResultFilter.doGrep,
     Bool.and_eq_true, Bool.or_eq_true, List.isEmpty_iff, Bool.not_eq_true', bne_iff_ne, ne_eq, beq_iff_eq]
   constructor
